@@ -97,6 +97,7 @@ type dCfg struct {
 	LateWrites bool          // every producer makes one more Write while Close runs and one after Close returned
 	CloseTwice int           // 1: Close is called a second time after it returned; 2: two goroutines call Close concurrently
 	Procs      int           // GOMAXPROCS for this run (0 = leave)
+	EmptyAt    int           // 1+i: message i of producer 0 is a zero-length payload (Write(nil) or Write([]byte{}): legal for an io.Writer); 0 = none
 	Script     func(r *dRun) // directed scenario driver (replaces the default producers)
 	Name       string
 }
@@ -106,7 +107,7 @@ func (c *dCfg) String() string {
 	if c.Poll > 0 {
 		mode = fmt.Sprintf("poller(%v)", c.Poll)
 	}
-	return fmt.Sprintf("{%s P=%d W=%d size=%d %s block=%v slow=%d paced=%v pad=%d closeEarly=%v hookless=%v faultW=%d nilAlerter=%v reAlerter=%v lateWrites=%v closeTwice=%d procs=%d}", c.Name, c.P, c.W, c.Size, mode, c.Block, c.SlowW, c.Paced, c.Pad, c.CloseEarly, c.Hookless, c.FaultW, c.NilAlerter, c.ReAlerter, c.LateWrites, c.CloseTwice, c.Procs)
+	return fmt.Sprintf("{%s P=%d W=%d size=%d %s block=%v slow=%d paced=%v pad=%d closeEarly=%v hookless=%v faultW=%d nilAlerter=%v reAlerter=%v lateWrites=%v closeTwice=%d procs=%d emptyAt=%d}", c.Name, c.P, c.W, c.Size, mode, c.Block, c.SlowW, c.Paced, c.Pad, c.CloseEarly, c.Hookless, c.FaultW, c.NilAlerter, c.ReAlerter, c.LateWrites, c.CloseTwice, c.Procs, c.EmptyAt)
 }
 
 type dWrite struct {
@@ -357,6 +358,9 @@ func newPause(pt string, k int, timeout time.Duration, otherRole bool, release .
 type dRecW struct{ r *dRun }
 
 func idOf(p []byte) string {
+	if len(p) == 0 {
+		return "<empty>" // the zero-length message of the run (at most one)
+	}
 	if i := bytes.IndexByte(p, ' '); i > 0 {
 		return string(p[:i])
 	}
@@ -433,6 +437,12 @@ func (w dRecW) Close() error {
 var errWrapped = fmt.Errorf("wrapped writer: broken pipe")
 
 func (r *dRun) payload(prod, i int) []byte {
+	if prod == 0 && r.cfg.EmptyAt == i+1 {
+		if i%2 == 0 {
+			return nil
+		}
+		return []byte{}
+	}
 	pad := 8
 	switch r.cfg.Pad {
 	case 1:
@@ -571,6 +581,16 @@ func (r *dRun) awaitQuiescence(limit time.Duration) (state, dump string) {
 			}
 			if r.cfg.Poll > 0 && polls-pollsAtProgress >= 1000 {
 				return "polling", ""
+			}
+			if !found && !r.progressDone() && atomic.LoadInt64(&r.closeCalled) == 0 {
+				// there is no consumer goroutine any more, although Close has not been called and claimed positions
+				// remain: nothing but a Close can ever deliver them. Confirmed by a second look with no hook event between.
+				if tl == lastTrace {
+					return "exited", ""
+				}
+				lastTrace = tl
+				time.Sleep(5 * time.Millisecond)
+				continue
 			}
 		}
 		if time.Now().After(deadline) {
